@@ -61,6 +61,13 @@ Theorem c19_handle_ledger : forall n s, preach n s ->
 Proof. exact handle_ledger. Qed.
 Print Assumptions c19_handle_ledger.
 
+(* same protocol, unconditional (crashes and abandoned roll-backs included): a handle never UNDER-counts, so
+   every owned address stays reachable from its handle *)
+Theorem c19_handle_never_undercounts_partial : forall n s, preach n s ->
+  forall h c, (p_alloc s h c <= p_hcnt s h c)%nat.
+Proof. exact handle_never_undercounts. Qed.
+Print Assumptions c19_handle_never_undercounts_partial.
+
 (* The faithful model of the UNFIXED code violates handle agreement at a quiescent state (concrete runs,
    replayed against the real code by the driver: see the report). *)
 Theorem c19_handle_agrees_refuted_requested_count :
@@ -77,3 +84,13 @@ Theorem c19_handle_agrees_refuted_stale_handle_copy :
   exists clients evs, disagrees (cfgW false false true) clients evs = true.
 Proof. exact (ex_intro _ w3_clients (ex_intro _ w3_sched w3_refutes)). Qed.
 Print Assumptions c19_handle_agrees_refuted_stale_handle_copy.
+
+(* Each address belongs to at most one block: two entries of a reachable datastore holding blocks with the same
+   CIDR are the same entry (keys are unique and a block is stored under its own CIDR). *)
+Theorem c19_one_block_per_address : forall cf clients evs e1 e2 c b1 b2,
+  let s := sy_store (sys_run (sys0 cf clients) evs) in
+  In e1 (st_ents s) -> In e2 (st_ents s) ->
+  e_key e1 = KBlock c -> e_val e1 = VBlock b1 -> e_key e2 = KBlock (bk_cidr b2) -> e_val e2 = VBlock b2 ->
+  bk_cidr b1 = bk_cidr b2 -> e1 = e2.
+Proof. exact reachable_one_block_per_cidr. Qed.
+Print Assumptions c19_one_block_per_address.
